@@ -33,6 +33,8 @@ class HarrCheck(Check):
             yield st
         for st in H.glue_streams(rng, self.tier):
             yield st
+        for st in H.digest_streams(rng, self.tier):
+            yield st
         for st in H.width_streams(rng, self.tier):
             yield st
         for st in H.scenario_streams(rng, self.tier):
